@@ -423,8 +423,22 @@ func lhYAML(t testing.TB, cfg lhNodeCfg) string {
 
 // lhNewNode must be called inside a synctest bubble.  The configuration is loaded from its YAML text, as nebula does,
 // so that a later reload (lhNode.reload) compares like with like.
+// lhLogFlip alternates the log level of the nodes: behaviour must not depend on whether debug logging is on
+// (handlers that return only inside an `if debug` block have been seen)
+var lhLogFlip int
+
+// lhLogChoice, when >= 0, decides the level of the next node (0 info, 1 debug): harnesses that build one node per vector
+// derive it from the vector so that the level does not correlate with the enumeration order
+var lhLogChoice = -1
+
 func lhNewNode(t testing.TB, cfg lhNodeCfg) *lhNode {
-	l := slog.New(slog.NewTextHandler(io.Discard, nil))
+	lhLogFlip++
+	lvl := slog.LevelInfo
+	if (lhLogChoice < 0 && lhLogFlip%2 == 0) || lhLogChoice == 1 {
+		lvl = slog.LevelDebug
+	}
+	lhLogChoice = -1
+	l := slog.New(slog.NewTextHandler(io.Discard, &slog.HandlerOptions{Level: lvl}))
 	nets := []netip.Prefix{netip.MustParsePrefix("10.128.0.1/16"), netip.MustParsePrefix("fd00:80::1/64")}
 	nt := new(bart.Lite)
 	for _, p := range nets {
